@@ -21,7 +21,7 @@ import (
 
 // CLICase: one invocation of the vore binary in a scratch directory.
 type CLICase struct {
-	Program   string `json:"program"`   // "find" | "replace" | "failing"
+	Program   string `json:"program"`   // "find" | "replace" | "failing" | "missingsrc" (-src names no file)
 	ViaSrc    bool   `json:"via_src"`   // -src file instead of -com
 	JSON      bool   `json:"json"`      // -json
 	FJSON     bool   `json:"fjson"`     // -formatted-json
@@ -29,7 +29,7 @@ type CLICase struct {
 	FJSONFile bool   `json:"fjson_file"`
 	Mode      string `json:"mode"`      // "" (absent) | NEW | NOTHING | OVERWRITE | BOGUS
 	NoOutput  bool   `json:"no_output"`
-	Files     string `json:"files"`     // "one" | "glob" | "nomatch" | "absent"
+	Files     string `json:"files"`     // "one" | "glob" | "subdir" | "nomatch" | "absent"
 	Dir       int    `json:"dir"`       // which directory fixture
 	StaleSink bool   `json:"stale_sink"` // out.json / outf.json exist beforehand, longer than any result
 }
@@ -41,13 +41,15 @@ var cliPrograms = map[string]string{
 }
 
 var cliFixtures = []map[string]string{
-	{"a.txt": "ab 12 ab3\nxyz ab\n", "b.txt": "12 ab", "c.md": "ab ab", "empty.txt": ""},
-	{"a.txt": "no match here\n", "b.txt": "\"quoted\" ab \\ <é>\n", "notes.md": "ab"},
+	{"a.txt": "ab 12 ab3\nxyz ab\n", "b.txt": "12 ab", "c.md": "ab ab", "empty.txt": "", "sub/x.txt": "ab in sub ab7", "sub/y.md": "ab"},
+	{"a.txt": "no match here\n", "b.txt": "\"quoted\" ab \\ <é>\n", "notes.md": "ab", "sub/x.txt": "nothing", "sub/deep/z.txt": "ab"},
 }
 
 func (c CLICase) args() []string {
 	var a []string
-	if c.ViaSrc {
+	if c.Program == "missingsrc" {
+		a = append(a, "-src", "no-such-program.vore")
+	} else if c.ViaSrc {
 		a = append(a, "-src", "prog.vore")
 	} else {
 		a = append(a, "-com", cliPrograms[c.Program])
@@ -57,6 +59,8 @@ func (c CLICase) args() []string {
 		a = append(a, "-files", "b.txt")
 	case "glob":
 		a = append(a, "-files", "*.txt")
+	case "subdir":
+		a = append(a, "-files", "sub/*.txt")
 	case "nomatch":
 		a = append(a, "-files", "*.nothing")
 	}
@@ -86,7 +90,7 @@ func (c CLICase) args() []string {
 }
 
 func (c CLICase) invalid() bool {
-	return c.Files == "absent" || (c.JSON && c.FJSON) || c.Mode == "BOGUS" || c.Program == "failing"
+	return c.Files == "absent" || (c.JSON && c.FJSON) || c.Mode == "BOGUS" || c.Program == "failing" || c.Program == "missingsrc"
 }
 
 func decodeOne(data []byte) (any, error) {
@@ -117,6 +121,7 @@ func checkCLICase(c CLICase) (sig, what string, nmatch int) {
 		dir = real
 	}
 	for n, data := range cliFixtures[c.Dir%len(cliFixtures)] {
+		os.MkdirAll(filepath.Dir(filepath.Join(dir, n)), 0o755)
 		os.WriteFile(filepath.Join(dir, n), []byte(data), 0o644)
 	}
 	os.WriteFile(filepath.Join(dir, "prog.vore"), []byte(cliPrograms[c.Program]), 0o644)
@@ -139,7 +144,7 @@ func checkCLICase(c CLICase) (sig, what string, nmatch int) {
 					lp = capturePanic(r)
 				}
 			}()
-			pattern := map[string]string{"one": "b.txt", "glob": "*.txt", "nomatch": "*.nothing"}[c.Files]
+			pattern := map[string]string{"one": "b.txt", "glob": "*.txt", "subdir": "sub/*.txt", "nomatch": "*.nothing"}[c.Files]
 			fileList = files.ParsePath(pattern).GetFileList(dir)
 			var v *libvore.Vore
 			v, lerr = libvore.Compile(cliPrograms[c.Program])
@@ -242,7 +247,7 @@ func checkCLICase(c CLICase) (sig, what string, nmatch int) {
 	}
 	if c.Program == "replace" && mode != "NOTHING" {
 		for _, f := range fileList {
-			name := filepath.Base(f)
+			name, _ := filepath.Rel(dir, filepath.Clean(f))
 			content := before[name]
 			var b strings.Builder
 			last := 0
@@ -284,14 +289,14 @@ func init() {
 
 func allCLICases() []CLICase {
 	var out []CLICase
-	for _, prog := range []string{"find", "replace", "failing"} {
+	for _, prog := range []string{"find", "replace", "failing", "missingsrc"} {
 		for _, src := range []bool{false, true} {
 			for jm := 0; jm < 4; jm++ {
 				for _, jf := range []bool{false, true} {
 					for _, fjf := range []bool{false, true} {
 						for _, mode := range []string{"", "NEW", "NOTHING", "OVERWRITE", "BOGUS"} {
 							for _, no := range []bool{false, true} {
-								for _, fl := range []string{"one", "glob", "nomatch", "absent"} {
+								for _, fl := range []string{"one", "glob", "subdir", "nomatch", "absent"} {
 									out = append(out, CLICase{Program: prog, ViaSrc: src, JSON: jm&1 != 0, FJSON: jm&2 != 0, JSONFile: jf, FJSONFile: fjf, Mode: mode, NoOutput: no, Files: fl})
 								}
 							}
@@ -329,7 +334,7 @@ func runCLICase(t fataler, st *Stats, c CLICase) {
 func TestC18Sample(t *testing.T) {
 	seedNote(t)
 	StartWatchdog("C18", 120*time.Second)
-	st := NewStats("C18", "sample", "random sample of the cross product {find, replace, non-compiling} x {-com,-src} x {none,-json,-formatted-json,both} x -json-file x -formatted-json-file x -replace-mode {absent,NEW,NOTHING,OVERWRITE,bogus} x -no-output x {one file, glob, glob matching nothing, -files absent} over two directory fixtures, run as subprocesses of the freshly built binary; oracle: the library's result on the same directory; non-trivial = >=1 match and at least one JSON sink; distinct by flag vector and fixture")
+	st := NewStats("C18", "sample", "random sample of the cross product {find, replace, non-compiling, -src naming no file} x {-com,-src} x {none,-json,-formatted-json,both} x -json-file x -formatted-json-file x -replace-mode {absent,NEW,NOTHING,OVERWRITE,bogus} x -no-output x {one file, glob, glob in a sub-directory, glob matching nothing, -files absent} over two directory fixtures, run as subprocesses of the freshly built binary; oracle: the library's result on the same directory; non-trivial = >=1 match and at least one JSON sink; distinct by flag vector and fixture")
 	defer st.Write()
 	all := allCLICases()
 	rapid.Check(t, func(t *rapid.T) {
@@ -343,7 +348,7 @@ func TestC18Sample(t *testing.T) {
 func TestC18All(t *testing.T) {
 	seedNote(t)
 	StartWatchdog("C18", 120*time.Second)
-	st := NewStats("C18", "all", "exhaustive: all 3840 flag vectors of the cross product x 2 directory fixtures; same oracle")
+	st := NewStats("C18", "all", "exhaustive: all 6400 flag vectors of the cross product x 2 directory fixtures; same oracle")
 	st.Exhaustive = true
 	defer st.Write()
 	nshards := envInt("VERIF_NSHARDS", 1)
